@@ -10,7 +10,7 @@ from ..oracles import graphs as G
 from ..workloads import gmat
 from . import _gc
 
-TECHNIQUE = "runtime post-condition monitors on dag_to_cpdag/pdag_to_cpdag vs. union graph of the brute-force equivalence class (all 29,281 DAGs p<=5; all PDAGs p<=4 quick / p<=5 thorough)"
+TECHNIQUE = "runtime post-condition monitors on dag_to_cpdag/pdag_to_cpdag vs. union graph of the brute-force equivalence class (all 29,281 DAGs p<=5; all PDAGs p<=4 quick / p<=5 thorough; dense 6-7 node DAGs via a covered-edge-reversal class search)"
 LEVEL_TEXT = ("Every CPDAG returned for the workload is compared entry-wise with the union graph of the class found by brute "
               "force: all DAGs on p<=5 nodes (every member of every class, so class-invariance is observed directly) and all "
               "PDAG codes on p<=4 (quick) / p<=5 (thorough) including those with no extension (ValueError expected), plus "
